@@ -155,13 +155,14 @@ pub fn check_forms(ll_opt: Option<&LongLived>, s: &str, st: &mut Stats) {
 
 // ---- (b) histories -------------------------------------------------------
 
-pub const INPUTS: [&str; 6] = [
+pub const INPUTS: [&str; 7] = [
     "abc",                       // unchanged on every path
     "Abc",                       // changed at index 0 (case-mapped), unchanged elsewhere
     "\u{e9}\u{3000}\u{ff22}",    // changed after a multi-byte prefix (space / width)
     "\u{a8}a",                   // needs two nickname rounds
     "a\u{9}",                    // rejected
-    "\u{5d0}1",                  // right-to-left
+    "\u{5d0}1",                  // right-to-left, valid
+    "\u{5d0}a",                  // right-to-left, rejected by the directionality rule
 ];
 
 #[derive(Copy, Clone, Debug, PartialEq, Eq)]
@@ -350,12 +351,34 @@ pub fn sigma16() -> Vec<char> {
 pub fn run(_env: &Env, run: &Run) -> (Stats, Coverage) {
     let mut st = Stats::default();
     // (a)
-    let sigma = sigma16();
+    let sigma = crate::sig::rotated(_env, sigma16(), run.seed);
     let n = run.tier.pick(3, 4);
-    st.merge(strtree(&sigma, n, |_c, s, st| {
-        check_forms(None, s, st);
-        st.count("out:forms-compared");
-    }));
+    let _ = tree_size(1, 1);
+    // sequential on purpose: (a) and (b) are about single-threaded semantics and must be
+    // reproducible; concurrency is the subject of (c)
+    {
+        let ll = long_lived();
+        let mut frontier: Vec<String> = vec![String::new()];
+        let mut all: Vec<String> = vec![String::new()];
+        for _ in 0..n {
+            let mut next = Vec::new();
+            for f in &frontier {
+                for c in &sigma {
+                    let mut t = f.clone();
+                    t.push(*c);
+                    next.push(t);
+                }
+            }
+            all.extend(next.iter().cloned());
+            frontier = next;
+        }
+        for s in &all {
+            st.states += 1;
+            st.transitions += 1;
+            check_forms(Some(&ll), s, &mut st);
+            st.count("out:forms-compared");
+        }
+    }
     // (b)
     let alpha = alphabet();
     let table = match first_call_table() {
@@ -405,7 +428,7 @@ pub fn run(_env: &Env, run: &Run) -> (Stats, Coverage) {
     st.sample(json!({"forms": "UsernameCaseMapped::enforce(\"Abc\") via static/new()/default()/long-lived x &str/String/&String/Cow::Borrowed/Cow::Owned", "expected": "all Ok(\"abc\")"}));
     st.sample(json!({"history": ["Nickname.enforce(U+00A8 a)", "UsernameCaseMapped.compare(Abc, ABC)", "Nickname.enforce(U+00A8 a)"], "expected": "each result equals the result of the same call made first in a fresh process"}));
     let cov = Coverage {
-        rule: format!("(a) every string of length <= {} over 16 symbols x 4 profiles x {{prepare, enforce}} x 12 (entry point, argument form) pairs and compare x 8 forms: all equal; (b) every call history of length <= {} over an alphabet of {} calls (4 profiles x 3 ops x 6 inputs hitting every fast and slow path) executed on the process-wide statics and on one long-lived instance per profile, every result compared with the result of that call as the FIRST library call of a fresh process ({} child processes); (c) every interleaving of 2-3 threads over the lazy-singleton points, see 'schedules'; (d) inventory of shared-state constructs in the three crates; non-trivial = histories mixing different calls", n, depth, alpha.len(), alpha.len()),
+        rule: format!("(a) every string of length <= {} over 16 symbols x 4 profiles x {{prepare, enforce}} x 12 (entry point, argument form) pairs and compare x 8 forms: all equal; (b) every call history of length <= {} over an alphabet of {} calls (4 profiles x 3 ops x 7 inputs hitting every fast and slow path) executed on the process-wide statics and on one long-lived instance per profile, every result compared with the result of that call as the FIRST library call of a fresh process ({} child processes); (c) every interleaving of 2-3 threads over the lazy-singleton points, see 'schedules'; (d) inventory of shared-state constructs in the three crates; non-trivial = histories mixing different calls", n, depth, alpha.len(), alpha.len()),
         alphabet: json!({"symbols": sigma.iter().map(|c| format!("U+{:04X}", *c as u32)).collect::<Vec<_>>(), "history_inputs": INPUTS.iter().map(|s| show(s)).collect::<Vec<_>>()}),
         bound_completed: format!("forms: {} strings; histories: depth {}", tree_size(sigma.len(), n), depth),
         exhaustive: false,
